@@ -65,6 +65,11 @@ def levinson(inp):
     T = np.array([[r[i - j] if i >= j else np.conj(r[j - i]) for j in range(p + 1)] for i in range(p + 1)])
     lhs = T @ np.concatenate(([1.0], A))
     ok = close(lhs, np.concatenate(([P], np.zeros(p))), 1e-9)
+    if inp.get("mode") == "stable":
+        roots = np.roots(np.concatenate(([1.0], A)))
+        mx = float(np.max(np.abs(roots))) if len(roots) else 0.0
+        if all(abs(k) < 1 for k in ks) and mx >= 1 - 1e-12:
+            return False, "LEVINSON order %d: |k| = %s all < 1 but the returned polynomial has a root of modulus %.6g" % (p, [round(abs(k), 6) for k in ks], mx)
     if inp.get("mode") != "generic":
         ok = ok and close(ref, np.array(ks), 1e-9) and close(A, a_want, 1e-9) and abs(P - P_want) < 1e-9 * max(1, abs(P_want))
         for q in range(1, p):
